@@ -211,7 +211,7 @@ func runReentrant(rc *RunCtx) {
 		prog = append(prog, st)
 		desc.Program = append(desc.Program, fmt.Sprintf("%s %s %v %v", st.kind, st.id, st.flag, st.d))
 	}
-	nWriters := tp.Choose(3, "nwriters")
+	nWriters := tp.Choose(4, "nwriters")
 	desc.Writers = nWriters
 	pending := 0
 	mainDone := false
@@ -261,9 +261,10 @@ func runReentrant(rc *RunCtx) {
 					broker.RegisterNode(el.NodeID(fmt.Sprintf("w%d", w)), mk("w", el.NodeTypeFilter))
 				case 1:
 					// the event types that are in flight, with a value that changes no outcome
-					broker.SetSuccessThreshold(el.EventType([]string{"ta", "tb", "tc"}[(i+w)%3]), 0)
+					// ("td" / "te" are types nobody has registered anything for: the setters create them)
+					broker.SetSuccessThreshold(el.EventType([]string{"ta", "td", "tb", "tc", "te"}[(i+wkind)%5]), 0)
 				case 2:
-					broker.SetSuccessThresholdSinks(el.EventType([]string{"ta", "tb"}[(i+w)%2]), 0)
+					broker.SetSuccessThresholdSinks(el.EventType([]string{"td", "ta", "te", "tb"}[(i+wkind)%4]), 0)
 				default:
 					broker.IsAnyPipelineRegistered("ta")
 					broker.SuccessThreshold("ta")
